@@ -57,6 +57,7 @@ def run(ctx: Context) -> None:
     ctx.rule('R04.4', "a miss returns None: the item is built only under a non-emptiness test of the hits, every other exit returns None", floor=2)
     ctx.rule('R04.5', "the spatial index is built over exactly self.polygons (holes keep their slot)", floor=1)
     ctx.rule('R04.6', "select_point raises on a miss and selects the native index of the item found", floor=3)
+    ctx.rule('R04.7', "cells without usable geometry are None in the polygon array (invalid polygons found over the full array and replaced in place), so the index can never return them (shared with C06 R06.6)", floor=6)
     ctx.assume("GEOS 'intersects' is true for interior and boundary points; STRtree.query is complete and returns positions in the input array, skipping None entries")
 
     impls = p.implementations(base, 'get_index_for_point')
@@ -162,6 +163,11 @@ def run(ctx: Context) -> None:
             ok = (isinstance(v, ast.Call) and (dotted(v.func) or '').endswith('STRtree') and len(v.args) == 1
                   and not v.keywords and flow.canon(v.args[0]) == ('attr', ('param', 'self'), 'polygons'))
             ctx.check('R04.5', ok, "STRtree(self.polygons) - the full, uncompacted polygon array", fi, r)
+
+    # holes and invalid cells are None in the array the index is built over (shared with C06)
+    from . import c06
+    from .common import share_obligations
+    share_obligations(ctx, c06, {'R06.6'}, 'R04.7')
 
     # R04.6: select_point
     for fi in p.implementations(base, 'select_point'):
